@@ -805,6 +805,11 @@ mod thr {
         Lookup { n: u64 },
         /// `drain()` through a stale reference on ANOTHER thread's actor, only once it is stopping
         LateDrain { k: u64 },
+        /// wave 2: the owner only waits for its actor `k` to exit (`wait()`); somebody else ends it
+        AwaitExit { k: u64 },
+        /// wave 2: `kill()` (or `stop()`) of ANOTHER thread's actor through the shared reference, only while
+        /// its owner sits in `AwaitExit` (so every region of the exit runs inside an action that names `k`)
+        EndOther { k: u64, kill: bool },
     }
 
     #[derive(Clone, Debug)]
@@ -819,6 +824,8 @@ mod thr {
         events: Mutex<Vec<Ev>>,
         /// cells by actor index, filled in by the controller as soon as a registration is seen
         cells: Mutex<HashMap<u64, ActorCell>>,
+        /// actors whose owner is inside `AwaitExit`
+        awaiting: Mutex<Vec<u64>>,
         done: std::sync::Barrier,
     }
 
@@ -878,6 +885,33 @@ mod thr {
                             }
                         }
                     }
+                    Act::AwaitExit { k } => {
+                        sh.awaiting.lock().unwrap().push(k);
+                        if let Some(c) = mine.get(&k) {
+                            // no blocking wait: an idle runtime is not a schedule point. Every turn is one, and
+                            // lets the actor's task (on this runtime) run its regions up to their own points
+                            while c.get_status() != ActorStatus::Stopped {
+                                verif::point("h.spin");
+                                tokio::task::yield_now().await;
+                            }
+                            let _ = c.wait(None).await;
+                            sh.events.lock().unwrap().push(Ev::WaitRet { k });
+                        }
+                    }
+                    Act::EndOther { k, kill } => {
+                        // turn (through schedule points) until the owner waits; its spawn may have failed
+                        while !sh.awaiting.lock().unwrap().contains(&k) {
+                            verif::point("h.spin");
+                        }
+                        let c = sh.cells.lock().unwrap().get(&k).cloned();
+                        if let Some(c) = c {
+                            if kill {
+                                c.kill();
+                            } else {
+                                c.stop(None);
+                            }
+                        }
+                    }
                 }
             }
         });
@@ -891,7 +925,28 @@ mod thr {
 
     /// Programs: every thread spawns under shared names, looks names up, exits its own
     /// actors and respawns; the last actions exit whatever the thread still owns.
-    fn gen_programs(rng: &mut Rng) -> Vec<Vec<Act>> {
+    fn gen_programs(rng: &mut Rng, seed: u64) -> Vec<Vec<Act>> {
+        if seed % 5 == 2 {
+            // wave 2: an actor ended from ANOTHER OS thread (kill/stop through the shared reference) while its
+            // owner waits; lookups and a same-name respawn race the exit
+            let kill = rng.chance(2, 3);
+            let mut t1 = Vec::new();
+            for _ in 0..rng.below(3) {
+                t1.push(Act::Lookup { n: 0 });
+            }
+            t1.push(Act::EndOther { k: 0, kill });
+            for _ in 0..rng.range(1, 3) {
+                t1.push(Act::Lookup { n: 0 });
+            }
+            t1.push(Act::Spawn { k: 1, n: 0, fail: false });
+            t1.push(Act::Lookup { n: 0 });
+            t1.push(Act::Exit { k: 1, kill: false });
+            let mut progs = vec![vec![Act::Spawn { k: 0, n: 0, fail: false }, Act::AwaitExit { k: 0 }], t1];
+            if rng.chance(1, 2) {
+                progs.push(vec![Act::Lookup { n: 0 }, Act::Lookup { n: 0 }, Act::Lookup { n: 0 }]);
+            }
+            return progs;
+        }
         if rng.chance(1, 4) {
             // the late-drain window: thread 0's actor exits; thread 1 drains it through a stale
             // reference while it is stopping, takes the name, drains again
@@ -1054,7 +1109,7 @@ mod thr {
 
     pub fn run_case(log: &mut Log, st: &mut Stats, seed: u64) {
         let mut rng = Rng::new(seed);
-        let progs = gen_programs(&mut rng);
+        let progs = gen_programs(&mut rng, seed);
         let sticky = rng.below(4); // 0: uniform; else: keep running the same thread with prob.
         let mut sched = Sched::Random { rng, sticky };
         run_progs(log, st, seed.to_string(), progs, &mut sched);
@@ -1076,6 +1131,7 @@ mod thr {
             ctx: Mutex::new(HashMap::new()),
             events: Mutex::new(Vec::new()),
             cells: Mutex::new(HashMap::new()),
+            awaiting: Mutex::new(Vec::new()),
             done: std::sync::Barrier::new(progs.len() + 1), // the threads and the controller
         });
         // in the cluster build the pid table is compared too
@@ -1187,6 +1243,7 @@ mod thr {
             }
             let k = match &act {
                 Act::Spawn { k, .. } | Act::Exit { k, .. } | Act::LateDrain { k } => *k,
+                Act::AwaitExit { k } | Act::EndOther { k, .. } => *k,
                 Act::Lookup { .. } => 0,
             };
             let mut events: Vec<Ev> = std::mem::take(&mut *sh.events.lock().unwrap());
@@ -1232,6 +1289,9 @@ mod thr {
                     (format!("regpid {k}"), "ok".into())
                 }
                 "status.publish" => {
+                    if matches!(act, Act::AwaitExit { .. }) {
+                        st.bump("thr_cross_end_publishes");
+                    }
                     let s = pubs.get_mut(&k).and_then(|v| v.pop()).unwrap_or(9);
                     (format!("pub {k} {s}"), "ok".into())
                 }
@@ -1256,6 +1316,10 @@ mod thr {
                             }
                         };
                         (format!("lookup {n}"), ans)
+                    }
+                    Act::EndOther { .. } => {
+                        st.bump("thr_cross_end");
+                        ("skip h.act".into(), "ok".into())
                     }
                     _ => ("skip h.act".into(), "ok".into()),
                 },
